@@ -18,7 +18,17 @@ Also emitted (information for C12/C14, checked by the property files where state
   * nondet_sources : every textual use of random_device / system_clock under src/ and inc/ (file, line)
 Skipped on purpose (no effect on the modelled state): declarations of `updatetime`, `h5save`
 (= opts.getSavePhaseSpace()), `outstepnr = 0`, `simulationstep = 0` (checked to be literal 0 and to
-precede the loop), the `at` declaration (folded into `Append (AGrid AtIfSave)`), `delete` statements.
+precede the loop), the `at` declaration (folded into `Append (AGrid AtIfSave)`).  Opaque: the arguments
+of the status line (`status_string(grid_t1, t, rotations)`: [Print MStatus]).
+`delete wake_field; delete wm; delete fpm;` are [Free] calls.  Local `const` variables with a pure
+initialiser (no call, no assignment, no reference to Display::abort) are let-bindings: every use is
+replaced by the initialiser; a use after a step counter the initialiser reads has changed fails.
+Conditions are matched on a canonical text (parentheses only where the tree needs them, `0 < x` = `x > 0`,
+`!(a % b)` = `a % b == 0`, `if (!c) A else B` = `if (c) B else A`, `p` = `p != nullptr`).
+The set-up (from the statement after `signal(SIGINT, ..)` to the marker) becomes `main_setup`, a control
+skeleton in the language of coq/Model/Setup.v (class SetupTr): hook points, `return`s, try/catch,
+`Display::abort = true`, `if (renormalize >= 0) { updateXProjection(); normalize(); }`; every other
+statement / condition must not mention Display::abort, a hook point or a return and is opaque.
 Read off the source, not translated: `wkm != nullptr` iff `wake_field != nullptr` (both are set in
 the same branch of the set-up, src/main.cpp "if (wake_impedance != nullptr)"): both become GWake."""
 import sys, os, re, glob
@@ -600,6 +610,24 @@ def nondet_sources():
     return res
 
 
+def abort_writes_elsewhere():
+    """textual scan of src/ and inc/ (main.cpp excluded: it is translated) for writes of Display::abort; anything but
+    `abort = true` (signal handler, window close button) or the definition `abort(false)` fails the translation"""
+    res = []
+    for p in sorted(glob.glob(os.path.join(REPO, "src", "**", "*.cpp"), recursive=True) +
+                    glob.glob(os.path.join(REPO, "inc", "**", "*.hpp"), recursive=True)):
+        rel = os.path.relpath(p, REPO)
+        if rel == os.path.join("src", "main.cpp"):
+            continue
+        for i, line in enumerate(open(p, errors="replace"), 1):
+            code = line.split("//")[0]
+            if re.search(r"\babort\b\s*(=[^=]|\+=|-=|\|=|&=|\^=)", code) or re.search(r"&\s*(Display::)?abort\b", code):
+                if not re.search(r"\babort\s*=\s*true\s*;", code):
+                    raise TranslateError("%s:%d writes Display::abort other than `= true`: %s" % (rel, i, code.strip()[:100]))
+                res.append((rel, i))
+    return res
+
+
 def translate():
     docs = ast_of("src/main.cpp", "main")
     mains = [x for x in docs if x.get("kind") == "FunctionDecl" and x.get("name") == "main"]
@@ -659,6 +687,7 @@ def translate():
         find_abort_refs(s, acc)
         refs += [(ln, wr, i > idx[0]) for (ln, wr) in acc]
     nd = nondet_sources()
+    aw = abort_writes_elsewhere()
     out = []
     out.append("(* GENERATED on every run by translate/mainloop2coq.py from src/main.cpp (main, from")
     out.append("   \"Starting the simulation.\" to return). Do not edit.")
@@ -689,6 +718,8 @@ def translate():
     out.append("(* every reference to Display::abort in main(): (source line, is a write, lies in the translated part) *)")
     out.append("Definition abort_refs : list (Z * bool * bool) :=\n  [%s]." %
                "; ".join("(%s, %s, %s)" % (ln or 0, "true" if wr else "false", "true" if sim_ else "false") for ln, wr, sim_ in refs))
+    out.append("(* every write of Display::abort outside main.cpp (each one is `abort = true`; anything else fails the translation) *)")
+    out.append("Definition abort_writes_elsewhere : list (string * Z) :=\n  [%s]." % "; ".join('("%s"%%string, %d)' % x for x in aw))
     out.append("(* every textual use of random_device / system_clock under src/ and inc/ *)")
     out.append("Definition nondet_sources : list (string * Z * string) :=\n  [%s]." %
                ";\n   ".join('("%s"%%string, %d, "%s"%%string)' % x for x in nd))
